@@ -26,7 +26,8 @@ RULE = ("small-world ACLs (addresses from one /28, ports 1..6, protocols ip/tcp/
         "flat or grouped by remark prefix, with address groups (1..4 members) and big-world ACLs; every skip setting. "
         "judged = delete_shadow calls monitored (each is one program); distinct non-trivial = (#lines, #removed, "
         "duplicates?, grouped?, numbered?, members?, skip) with at least one removal"
-        " Round 4: regroup by a second prefix / ungroup before the removal; block structure compared with the blocks observed before the call.")
+        " Round 4: regroup by a second prefix / ungroup before the removal; block structure compared with the blocks observed before the call."
+        " Round 5: two wide chains per run (14-bit non-contiguous wildcard / subnet / small wildcard).")
 ASSUMPTIONS = ["cover theorem: if every removed ACE is inside a same-action ACE that stood above it, no first match changes",
                "duplicate group headings are merged by Acl.group by design (CHANGELOG 3.2.4)"]
 
